@@ -193,7 +193,10 @@ class Base:
                     claripy.backends.concrete._abstract(claripy.backends.concrete.call(op, args)), args
                 )
                 if r is not None:
-                    return r
+                    # annotations given for the node itself (a node rebuilt over new arguments, as replace() does) stay
+                    # on what it folds to
+                    own = tuple(a for a in annotations if a not in r.annotations)
+                    return r.annotate(*own) if own else r
 
         uneliminatable_annotations = frozenset(a for a in annotations if not (a.eliminatable or a.relocatable))
         relocatable_annotations = frozenset(a for a in annotations if not a.eliminatable and a.relocatable)
